@@ -135,6 +135,16 @@ def check_faces(case, ctx):
         other = "Y" if ax == "X" else "X"
         got = must_return(f"Grid.{case['op']} (vector component, face-connected)", fn, {ax: a}, ax, to=to, other_component={other: b},
                           keep_coords=case["keep_coords"])
+    # the same arrays carrying face labels of their own (in another order than the dataset's): labels are not data
+    perm = np.arange(nf)[::-1] * 3 + 5
+    a2, b2 = a.assign_coords(face=("face", perm)), b.assign_coords(face=("face", perm))
+    if what == "scalar":
+        got2 = must_return("operation on an input with face labels of its own", fn, a2, ax, to=to, keep_coords=case["keep_coords"])
+    else:
+        got2 = must_return("operation on inputs with face labels of their own", fn, {ax: a2}, ax, to=to, other_component={other: b2},
+                           keep_coords=case["keep_coords"])
+    if not np.array_equal(np.asarray(got2.transpose(*got.dims).values), np.asarray(got.values), equal_nan=True):
+        raise Violation("values on a face-connected grid depend on the face labels the input carries", input_kind=what)
     if got.name != name_a:
         raise Violation("result of an operation on a face-connected grid does not keep the input's name", got=got.name, expected=name_a,
                         input_kind=what, partner=name_b if what != "scalar" else None)
